@@ -211,6 +211,32 @@ def check_msg(m):
         lvs = [getattr(again_holder, a) for a in (("source_file_name", "dest_file_name") if k == "put_request" else ("dir_path", "dir_file_name"))]
         eq(devs, "decoded_again_after_earlier_result_was_filled_in.lv_octets", [bytes(x.pack()).hex() for x in lvs],
            [R.lv(bytes.fromhex(m[f])).hex() for f in (("src", "dst") if k == "put_request" else ("path", "file"))])
+    if k in ("put_request", "orig_id"):
+        # entity ids / sequence numbers whose value was assigned from an octet string that continues behind the field (the field keeps its width)
+        from spacepackets.cfdp import defs as cd0
+        from spacepackets.cfdp.lv import CfdpLv as Lv0
+        from spacepackets.util import ByteFieldGenerator as G0
+
+        def from_longer(w, v):
+            f = G0.from_int(w, 0)
+            f.value = v.to_bytes(w, "big") + b"\xde\xad\xbe"
+            return f
+
+        if k == "put_request":
+            m2 = T.ProxyPutRequest(T.ProxyPutRequestParams(from_longer(m["dest_w"], m["dest_id"]), Lv0(bytes.fromhex(m["src"])), Lv0(bytes.fromhex(m["dst"]))))
+        else:
+            m2 = T.OriginatingTransactionId(cd0.TransactionId(from_longer(m["src_w"], m["src"]), from_longer(m["seq_w"], m["seq"])))
+        eq(devs, "ids_assigned_from_longer_octet_strings.pack", bytes(m2.pack()), want)
+    if k in ("list_req", "list_resp", "put_request"):
+        # names given as paths: the name on the wire is str(path), exactly as the caller spelled it (pathlib keeps '..' components)
+        import pathlib
+
+        from spacepackets.cfdp.lv import CfdpLv as Lv1
+
+        for spelled in ("/data/current/../archive", "a/../b", "../up", "dir/./file", "x//y", "/tmp/\u00fc/..", "plain.txt", ""):
+            pth = pathlib.PurePosixPath(spelled)
+            eq(devs, "from_path.pure_path", bytes(Lv1.from_path(pth).pack()), R.lv(str(pth).encode("utf-8")), f"path {spelled!r}")
+            eq(devs, "from_path.str", bytes(Lv1.from_path(spelled).pack()), R.lv(spelled.encode("utf-8")), f"string {spelled!r}")
     if k == "put_request":
         from spacepackets.cfdp.lv import CfdpLv
         from spacepackets.util import ByteFieldGenerator
